@@ -10,6 +10,8 @@ pub struct Gen<'a> {
     pub use_in: bool,
     /// include an operator that has no fixity in scope
     pub undefined_op: bool,
+    /// literal-spelling family: literals of every spelling in most atom and pattern positions
+    pub lit_heavy: bool,
     pub used: std::collections::BTreeSet<&'static str>,
     pub s: String,
 }
@@ -25,13 +27,34 @@ const CTORS: &[&str] = &["Some", "None", "Cons", "Nil", "Ok", "Err"];
 /// operators that have a fixity with the implicit prelude
 const OPS: &[&str] = &["+", "-", "*", "/", "==", "<", "<=", "&&", "||", "++", "<|"];
 const LITS: &[&str] = &[
-    "1", "42", "0", "3.14", "1.0e-3", "\"s\"", "\"a\\\"q\\n\"", "'c'", "'\\n'", "10b", "r\"raw\\x\"",
-    "r#\"a\"b\"#", "\"\"", "0xFF", "1_000", "\"// not a comment\"", "\"/* nor this */\"",
+    "1", "42", "0", "3.14", "0.5", "\"s\"", "\"a\\\"q\\n\"", "'c'", "'\\n'", "10b", "r\"raw\\x\"",
+    "r#\"a\"b\"#", "\"\"", "0xFF", "1000", "\"// not a comment\"", "\"/* nor this */\"",
+];
+/// Every literal spelling the tokenizer accepts (parser/src/token.rs numeric_literal :685-778,
+/// char_literal, string_literal / escape_code :525-546, raw strings): ints, negative ints, floats
+/// with trailing zeros and integral values, hex in both cases and negative, bytes, chars with
+/// every escape and non-ASCII, strings with every escape, raw strings with 0..2 hashes. There are
+/// no exponents, digit separators or other radices in gluon.
+pub const FULL_LITS: &[&str] = &[
+    "0", "1", "42", "007", "9223372036854775807", "-1", "-42", "-0", "-9223372036854775808",
+    "1.0", "-1.0", "2.50", "-2.50", "0.5", "-0.5", "3.14", "100.0", "-100.0", "0.000001",
+    "123456789.125", "1.10", "-0.0", "0.0", "10.", "-3.",
+    "0x1F", "-0x1F", "0xff", "0xFF", "0x0", "-0x0", "0x7fffffffffffffff", "0x00ff",
+    "0b", "1b", "255b", "10b", "007b",
+    "'a'", "'Z'", "'\u{e9}'", "'\\n'", "'\\t'", "'\\r'", "'\\\\'", "'\\''", "'\"'", "'\\\"'", "'\\/'", "' '",
+    "\"\"", "\"s\"", "\"a\\\"q\\n\"", "\"\\t\\r\\\\\\/\\'\"", "\"\u{e9} \u{fc} \u{3000}\"", "\"// not a comment\"",
+    "\"/* nor this */\"", "\"  two  spaces  \"", "\"-1.0\"",
+    "r\"raw\\x\"", "r#\"a\"b\"#", "r##\"x\"#y\"##", "r\"\"", "r#\"\"#", "r\"\u{e9}\"",
+];
+/// literal patterns
+const PAT_LITS: &[&str] = &[
+    "0", "1", "-1", "42", "0x1F", "-0x1F", "1.0", "-1.0", "2.50", "10b", "'c'", "'\\n'", "'\u{e9}'", "\"s\"", "\"a\\\"q\"",
+    "\"\"", "r\"raw\"", "007",
 ];
 
 impl<'a> Gen<'a> {
     pub fn new(rng: &'a mut Rng, long_names: bool, use_in: bool, undefined_op: bool) -> Self {
-        Gen { rng, long_names, use_in, undefined_op, used: Default::default(), s: String::new() }
+        Gen { rng, long_names, use_in, undefined_op, lit_heavy: false, used: Default::default(), s: String::new() }
     }
     fn col(&self) -> usize {
         let ls = self.s.rfind('\n').map_or(0, |i| i + 1);
@@ -71,7 +94,11 @@ impl<'a> Gen<'a> {
     }
     fn lit(&mut self) -> String {
         self.used.insert("lit");
-        self.rng.pick(LITS).to_string()
+        if self.lit_heavy {
+            self.rng.pick(FULL_LITS).to_string()
+        } else {
+            self.rng.pick(LITS).to_string()
+        }
     }
     fn op(&mut self) -> String {
         if self.undefined_op && self.rng.chance(1, 3) {
@@ -82,6 +109,10 @@ impl<'a> Gen<'a> {
         }
     }
     fn atom(&mut self) {
+        if self.lit_heavy && self.rng.chance(2, 3) {
+            let t = self.lit();
+            return self.w(&t);
+        }
         let t = match self.rng.below(8) {
             0 | 1 | 2 => self.id(),
             3 | 4 => self.lit(),
@@ -98,6 +129,10 @@ impl<'a> Gen<'a> {
         self.w(&t);
     }
     fn pat(&mut self, d: u32) -> String {
+        if self.lit_heavy && self.rng.chance(1, 2) {
+            self.used.insert("pat-lit");
+            return self.rng.pick(PAT_LITS).to_string();
+        }
         match self.rng.below(if d == 0 { 3 } else { 9 }) {
             0 | 1 => self.id(),
             2 => "_".into(),
@@ -134,7 +169,7 @@ impl<'a> Gen<'a> {
             }
             6 => {
                 self.used.insert("pat-lit");
-                self.rng.pick(&["1", "\"s\"", "'c'", "0"]).to_string()
+                self.rng.pick(PAT_LITS).to_string()
             }
             7 => {
                 self.used.insert("pat-as");
